@@ -303,14 +303,14 @@ def main() -> int:
     lexeme_obligations(ck)
     lark_errors(ck)
     statelessness(ck)
-    texts = gx_witness_texts(ck, per_len=6 if ck.tier == 'quick' else 25, maxlen=9 if ck.tier == 'quick' else 11)
+    texts = gx_witness_texts(ck, per_len=6 if ck.tier == 'quick' else 60, maxlen=9 if ck.tier == 'quick' else 11)
     # corpus mutations
     rnd = random.Random(ck.seed + 7)
     corpus = c01.corpus_texts()
     import re
     tokre = re.compile(r'"(?:[^"\\]|\\.)*"|@?[A-Za-z_][A-Za-z0-9_]*|\d+\.?\d*(?:[eE][+-]?\d+)?|!\[|\]!|\*\*|<=|>=|!=|\S')
     for kind, items in corpus.items():
-        step = max(1, len(items) // (25 if ck.tier == 'quick' else 120))
+        step = max(1, len(items) // (25 if ck.tier == 'quick' else 400))
         for t in items[::step]:
             toks = tokre.findall(t)
             texts.append((kind, t))
@@ -329,7 +329,7 @@ def main() -> int:
             texts.append(('file', f'globally: a causes b within {lexeme}{unit}\nglobally: no a'))
     # raw strings
     for kind in ('expression', 'predicate', 'property', 'file'):
-        for _ in range(150 if ck.tier == 'quick' else 1500):
+        for _ in range(150 if ck.tier == 'quick' else 8000):
             texts.append((kind, ''.join(rnd.choice(LEXEME_POOL) + rnd.choice(['', ' ', ' ']) for _ in range(rnd.randrange(1, 9)))))
         texts.append((kind, '(' * 40 + 'x' + ')' * 40))
     texts = list(dict.fromkeys(texts))
@@ -351,7 +351,7 @@ def main() -> int:
     ck.sample({'gx_witness_text': texts[5][1][:200]})
     ck.bound('LX', 'complete for the finite terminal languages; NUMBER within float syntax for all strings')
     ck.bound('GX witnesses', 'token strings of length <= 9 (quick) / 11 (thorough) of the live rule set, several per length, each with all one-token perturbations')
-    ck.bound('mutations', 'all single-token deletions, three substitutions and insertions per position, six double mutations per corpus text; 150-1500 random concatenations of lexemes per entry point (incl. Unicode, control characters, 5000-digit numbers, 1e400)')
+    ck.bound('mutations', 'all single-token deletions, three substitutions and insertions per position, six double mutations per corpus text; 150-8000 random concatenations of lexemes per entry point (incl. Unicode, control characters, 5000-digit numbers, 1e400)')
     ck.coverage['evaluations'] = len(texts)
     ck.coverage['distinct_nontrivial'] = len(texts)
     ck.coverage['rule'] = 'one evaluation = one distinct text through one real parser entry point; every text is distinct'
